@@ -5,25 +5,34 @@ From DV Require Import Model.Decision.
 Local Open Scope string_scope.
 
 Definition gotypes_resolveident_src : list dstmt :=
-  [DGuard "nil(r.Uses)" false DErr;
-   DIf "is(parent,*ast.SelectorExpr)" false [DIf "eq(parentField,""Sel"")" false [DGuard "is(parent.(*ast.SelectorExpr).X,*ast.Ident)" true DEmpty; DGuard "has(r.Uses,parent.(*ast.SelectorExpr).X.(*ast.Ident))" true DEmpty; DGuard "is(r.Uses[parent.(*ast.SelectorExpr).X.(*ast.Ident)],*types.PkgName)" true DEmpty; DRet (DVal "r.Uses[parent.(*ast.SelectorExpr).X.(*ast.Ident)].(*types.PkgName).Imported().Path()")]];
-   DGuard "has(r.Uses,id)" true DEmpty;
-   DIf "is(r.Uses[id],*types.Var)" false [DGuard "true(r.Uses[id].(*types.Var).IsField())" false DEmpty];
-   DGuard "nil(r.Uses[id].Pkg())" false DEmpty;
+  [DGuard "nil(r.Uses)" false (DErr);
+   DIf "is(parent,*ast.SelectorExpr)" false [DIf "eq(parentField,""Sel"")" false [DGuard "is(parent.(*ast.SelectorExpr).X,*ast.Ident)" true (DEmpty); DGuard "has(r.Uses,parent.(*ast.SelectorExpr).X.(*ast.Ident))" true (DEmpty); DGuard "is(r.Uses[parent.(*ast.SelectorExpr).X.(*ast.Ident)],*types.PkgName)" true (DEmpty); DRet (DVal "r.Uses[parent.(*ast.SelectorExpr).X.(*ast.Ident)].(*types.PkgName).Imported().Path()")]];
+   DGuard "has(r.Uses,id)" true (DEmpty);
+   DIf "is(r.Uses[id],*types.Var)" false [DGuard "true(r.Uses[id].(*types.Var).IsField())" false (DEmpty)];
+   DGuard "nil(r.Uses[id].Pkg())" false (DEmpty);
    DRet (DVal "r.Uses[id].Pkg().Path()")].
 
 Definition goast_resolveident_src : list dstmt :=
   [DGuard "fails(r.imports(file))" false DErr;
-   DGuard "is(parent,*ast.SelectorExpr)" true DEmpty;
-   DGuard "eq(parentField,""Sel"")" true DEmpty;
-   DGuard "is(parent.(*ast.SelectorExpr).X,*ast.Ident)" true DEmpty;
-   DGuard "nil(parent.(*ast.SelectorExpr).X.(*ast.Ident).Obj)" true DEmpty;
-   DGuard "has(r.imports(file),parent.(*ast.SelectorExpr).X.(*ast.Ident).Name)" true DEmpty;
+   DGuard "is(parent,*ast.SelectorExpr)" true (DEmpty);
+   DGuard "eq(parentField,""Sel"")" true (DEmpty);
+   DGuard "is(parent.(*ast.SelectorExpr).X,*ast.Ident)" true (DEmpty);
+   DGuard "nil(parent.(*ast.SelectorExpr).X.(*ast.Ident).Obj)" true (DEmpty);
+   DGuard "has(r.imports(file),parent.(*ast.SelectorExpr).X.(*ast.Ident).Name)" true (DEmpty);
    DRet (DVal "r.imports(file)[parent.(*ast.SelectorExpr).X.(*ast.Ident).Name]")].
 
 Definition resolvepath_src : list dstmt :=
-  [DGuard "nil(f.Resolver)" false DPanic;
-   DIf "force" true [DGuard "true(avoid[parentName+"".""+parentField])" false DEmpty; DGuard "eq(parentFieldType,""Expr"")" true DPanic];
+  [DGuard "nil(f.Resolver)" false (DPanic);
+   DIf "force" true [DGuard "true(avoid[parentName+"".""+parentField])" false (DEmpty); DGuard "eq(parentFieldType,""Expr"")" true (DPanic)];
    DGuard "fails(f.Resolver.ResolveIdent(file-of(id),parent,parentField,id))" false DErr;
-   DIf "true(f.ResolveLocalPath)" true [DGuard "eq(stripVendor(f.Resolver.ResolveIdent(file-of(id),parent,parentField,id)),stripVendor(f.Path))" false DEmpty];
+   DIf "true(f.ResolveLocalPath)" true [DGuard "eq(stripVendor(f.Resolver.ResolveIdent(file-of(id),parent,parentField,id)),stripVendor(f.Path))" false (DEmpty)];
    DRet (DVal "stripVendor(f.Resolver.ResolveIdent(file-of(id),parent,parentField,id))")].
+
+Definition guess_resolvepackage_src : list dstmt :=
+  [DGuard "has(r,importPath)" false (DVal "r[importPath]");
+   DGuard "true(strings.Contains(importPath,""/""))" true (DVal "importPath");
+   DRet (DVal "importPath[strings.LastIndex(importPath, ""/"")+1:]")].
+
+Definition simple_resolvepackage_src : list dstmt :=
+  [DGuard "has(r,importPath)" false (DVal "r[importPath]");
+   DRet (DErr)].
